@@ -21,7 +21,7 @@ from pyvc.ctx import PathEnd, Unsupported
 from pyvc.engine import LoopSpec, PyRaise
 from pyvc.pyops import PyExc
 from pyvc.runner import H, Unit, base_registry, register, set_registry_factory
-from pyvc.theories import misc
+from pyvc.theories import misc, pybuiltins as pb
 from pyvc.theories.osfs import OsTheory
 from pyvc.values import (ClassVal, PDict, PList, SBool, SBytes, SExc, SInt, SObj, SOpt, SStr, SXReal, TheoryObj, to_z3)
 
@@ -246,16 +246,35 @@ def s3lock_world(h: H, g):
     """The lock object: (exists, content, etag, last_modified).  Environment steps (other agents: create / renew / take over /
     release, all by the same protocol) may change it at every request boundary."""
     c = h.ctx
+    # T-s3 (faithful to S3): the ETag of a single-part object is a function of its CONTENT (MD5) - writing identical bytes again
+    # (a renewal with a constant body) changes LastModified but NOT the ETag
+    ETAG = z3.Function("s3.etag_of_content", STR, z3.IntSort())
     w = {"ex": z3.Bool("lock_exists0"), "content": z3.String("lock_content0"), "etag": z3.Int("lock_etag0"), "lm": z3.Real("lock_last_modified0"),
-         "log": []}
+         "log": [], "ETAG": ETAG}
+    c.assume(w["etag"] == ETAG(w["content"]))
+
+    def own(ct):
+        """content written by this provider: its id, optionally followed by a newline and a per-write nonce"""
+        lid = g["lock_id"].z
+        return z3.Or(ct == lid, z3.PrefixOf(z3.Concat(lid, z3.StringVal("\n")), ct))
+    w["own"] = own
+
+    def etag_injective(a, b):
+        c.assume(z3.Implies(ETAG(a) == ETAG(b), a == b), "T-s3: distinct contents have distinct ETags (no MD5 collision)")
+    w["inj"] = etag_injective
 
     def env_step(I, when):
         if not g.get("env", True):
             return
         ex2, ct2, tag2, lm2 = I.ctx.fresh_bool("lock_exists"), I.ctx.fresh_str("lock_content"), I.ctx.fresh_int("lock_etag"), I.ctx.fresh("lock_lm", z3.RealSort())
         changed = I.ctx.fresh_bool("env_changed_lock")
-        I.ctx.assume(z3.If(changed, z3.And(tag2 > w["etag"], ct2 != g["lock_id"].z),
+        # other agents write THEIR ids (never ours); an agent re-writing the same content (its renewal) keeps the ETag
+        # rely R-nonce: other agents run the same protocol, whose every write changes the content (guarantee G-nonce, proved for
+        # this code's own PUTs by the obligation NONCE below) - unless the object was deleted and re-created in between
+        I.ctx.assume(z3.Implies(z3.And(changed, ex2, w["ex"], lm2 != w["lm"]), ct2 != w["content"]), "R-nonce")
+        I.ctx.assume(z3.If(changed, z3.And(tag2 == ETAG(ct2), z3.Not(own(ct2)), lm2 >= w["lm"]),
                            z3.And(ex2 == w["ex"], ct2 == w["content"], tag2 == w["etag"], lm2 == w["lm"])))
+        I.ctx.assume(z3.Implies(ETAG(ct2) == ETAG(w["content"]), ct2 == w["content"]))
         w["ex"], w["content"], w["etag"], w["lm"] = ex2, ct2, tag2, lm2
         w["log"].append(("env", when, changed))
 
@@ -285,11 +304,21 @@ def s3lock_world(h: H, g):
             w["log"].append(("put-rejected", cond))
             code = ["PreconditionFailed", "412"][I.ctx.choose(2, "cas-code")] if "IfNoneMatch" in k or w_true(w["ex"]) else "PreconditionFailed"
             raise PyRaise(err(code, "precondition failed"))
-        newtag = I.ctx.fresh_int("lock_etag_mine")
-        I.ctx.assume(newtag > w["etag"])
+        bz = pyops.str_z(body)
+        text = bz.arg(0) if z3.is_app(bz) and bz.decl().name() == "utf8.encode" else z3.Function("utf8.decode", STR, STR)(bz)
+        newtag = ETAG(text)
+        I.ctx.assume(z3.Implies(newtag == w["etag"], text == w["content"]), "T-s3: distinct contents have distinct ETags")
+        fresh_tokens = [hx for hx in I.ctx.ghost.get("uuid", {}).get("hex", [])]
+        if fresh_tokens:
+            # A-uuid: a body that carries a token generated during this call differs from every content written before
+            I.ctx.assume(z3.Implies(z3.Or(*[z3.Contains(text, hx) for hx in fresh_tokens]), text != w["content"]),
+                         "A-uuid: a freshly generated nonce makes the body differ from the current content")
+        h.ensure("NONCE:every-write-carries-a-fresh-token(so-the-content-and-its-ETag-change-with-every-write)",
+                 z3.Or(*[z3.Contains(text, hx) for hx in fresh_tokens]) if fresh_tokens else z3.BoolVal(False),
+                 classes=[("renewal-with-identical-body-keeps-the-etag", z3.BoolVal(True))])
         was = (w["ex"], w["content"], w["etag"], w["lm"])
-        w["ex"], w["content"], w["etag"], w["lm"] = z3.BoolVal(True), pyops.str_z(body), newtag, g["now"](I)
-        w["log"].append(("put", cond, k.get("IfMatch"), was, pyops.str_z(body)))
+        w["ex"], w["content"], w["etag"], w["lm"] = z3.BoolVal(True), text, newtag, g["now"](I)
+        w["log"].append(("put", cond, k.get("IfMatch"), was, text))
         return PDict({"ETag": SInt(newtag)})
 
     def w_true(b):
@@ -301,7 +330,7 @@ def s3lock_world(h: H, g):
         if not I.ctx.decide(w["ex"], "head-exists"):
             raise PyRaise(err("404", "head: no such key"))
         lm = TheoryObj("s3time", fields={"t": w["lm"]})
-        w["log"].append(("head", w["etag"], w["lm"]))
+        w["log"].append(("head", w["etag"], w["lm"], w["content"]))
         return PDict({"LastModified": lm, "ETag": SInt(w["etag"])})
 
     def get_object(I, o, a, k):
@@ -336,6 +365,8 @@ def s3provider(h: H, g, cls="S3LockProvider", locked=False):
     c = h.ctx
     lock_id = h.str("lock_id")
     g["lock_id"] = lock_id
+    misc.install_uuid(h.reg, c)
+    h.assume(pb.not_contains(lock_id.z, "\n"), "lock ids are uuid strings")
     misc.install_clock(h.reg, c)
     c.ghost["clock"]["monotone"] = True
     g["now"] = lambda I: (c.ghost["clock"]["last"] if c.ghost["clock"]["last"] is not None else z3.RealVal(0))
@@ -386,8 +417,8 @@ def h_try_acquire(h: H):
         h.ensure("CREATE:only-conditional-create(If-None-Match:*)", e[1] == "IfNoneMatch")
     if out == "ok" and val is True and not took:
         h.ensure("CREATE:True-without-takeover=>object-was-absent-when-the-PUT-landed", len(puts) == 1 and z3.Not(puts[0][3][0]))
-        h.ensure("CREATE:own-id-written-and-etag-remembered", puts and z3.is_true(z3.simplify(puts[0][4] == z3.Function("utf8.encode", STR, STR)(lock_id.z)))
-                 and isinstance(prov.fields["_etag"], SInt))
+        h.ensure("CREATE:own-id-written", w["own"](puts[0][4]) if puts else z3.BoolVal(False))
+        h.ensure("CREATE:etag-remembered", bool(puts) and isinstance(prov.fields["_etag"], SInt))
     elif out == "ok":
         h.ensure("CREATE:otherwise-the-decision-is-the-takeover's", len(took) == 1 and len(rej) == 1)
     else:
@@ -414,6 +445,12 @@ def h_takeover(h: H):
                  h.ctx.ghost["clock"]["last"] - heads[0][2] > z3.ToReal(lease.z))
     if out == "ok" and val is True:
         h.ensure("TAKEOVER:True=>own-PUT-landed", len(puts) == 1)
+        if len(puts) == 1 and heads:
+            was = puts[0][3]
+            # the purpose of the If-Match: the object replaced is the very (expired) one the HEAD looked at
+            h.ensure("TAKEOVER:True=>the-lock-was-not-renewed-between-the-HEAD-and-the-takeover",
+                     was[3] == heads[0][2],
+                     classes=[("renewal-with-identical-body-keeps-the-etag", z3.And(was[1] == heads[0][3], was[3] != heads[0][2]))])
     elif out == "ok":
         h.ensure("TAKEOVER:False=>object-not-modified-by-this-call", not puts)
     else:
@@ -449,12 +486,12 @@ def h_is_held_s3(h: H):
     h.ensure("HELD-S3:never-raises", out == "ok", detail=repr(val) if out != "ok" else "")
     if out == "ok" and pyops.truth(val) is True:
         h.ensure("HELD-S3:True=>content-read-IN-THIS-CALL-is-the-own-id",
-                 z3.BoolVal(False) if not gets else gets[-1][1] == lock_id.z)
+                 z3.BoolVal(False) if not gets else w["own"](gets[-1][1]))
         h.ensure("HELD-S3:True-only-while-is_locked", locked is True)
     elif out == "ok":
         if gets:
             h.ensure("HELD-S3:a-foreign-owner-observed=>is_locked-cleared",
-                     z3.Implies(gets[-1][1] != lock_id.z, z3.BoolVal(prov.fields["is_locked"] is False)))
+                     z3.Implies(z3.Not(w["own"](gets[-1][1])), z3.BoolVal(prov.fields["is_locked"] is False)))
     h.ensure("HELD-S3:is_held-never-mutates-the-lock-object", not [e for e in w["log"] if e[0] in ("put", "delete")])
 
 
@@ -471,10 +508,51 @@ def h_release_s3(h: H):
     for d in dels:
         _op, ex_at, content_at, tag_at, lm_at = d
         h.ensure("REL-S3:deletes-only-while-the-object-carries-the-own-id-at-that-instant",
-                 z3.Implies(ex_at, content_at == lock_id.z),
-                 classes=[("takeover-between-GET-and-unconditional-DELETE", z3.And(ex_at, content_at != lock_id.z))],
+                 z3.Implies(ex_at, w["own"](content_at)),
+                 classes=[("takeover-between-GET-and-unconditional-DELETE", z3.And(ex_at, z3.Not(w["own"](content_at))))],
                  detail="release() reads the object, then issues an unconditional delete_object")
     h.ensure("REL-S3:never-overwrites-the-lock-object", not [e for e in w["log"] if e[0] == "put"])
+
+
+def _replay_takeover_renewal(ob):
+    """the holder's renewal lands between a contender's HEAD (lease looked lapsed) and its If-Match PUT; ETags as on S3 (MD5)"""
+    return '''
+import sys, datetime
+from doubles.s3 import FakeS3
+from datashard.lock_provider import S3LockProvider
+import datetime as _d
+bad = []
+now = {"t": datetime.datetime(2026, 1, 1, tzinfo=datetime.timezone.utc)}
+s3 = FakeS3(clock=lambda: now["t"]); s3.content_etags = True
+class _DT(datetime.datetime):
+    @classmethod
+    def now(cls, tz=None): return now["t"]
+real_dt = _d.datetime
+_d.datetime = _DT
+try:
+    def mk():
+        p = S3LockProvider(s3, "bkt", "locks/metadata.lock", timeout=0.1, lease_seconds=60)
+        p._start_heartbeat = lambda: None
+        return p
+    A, B = mk(), mk()
+    assert A._try_acquire(); A.is_locked = True
+    now["t"] += datetime.timedelta(seconds=61)          # A's heartbeat is late: the lease looks lapsed
+    st = {"armed": True}
+    def before(op, kw):
+        if op == "put_object" and st["armed"] and kw.get("IfMatch") is not None:
+            st["armed"] = False
+            A._renew_once()                                 # ... and lands right before B's conditional PUT
+    s3.before = before
+    took = B._try_takeover_expired()
+    s3.before = None
+    lm = s3.meta[("bkt", "locks/metadata.lock")]["LastModified"]
+    if took and A.is_locked:
+        bad.append("takeover succeeded although the holder had just renewed (lease not lapsed at the takeover): both believe they hold")
+finally:
+    _d.datetime = real_dt
+print("replay takeover/renewal ->", bad or "ok")
+sys.exit(1 if bad else 0)
+'''
 
 
 def _replay_s3lock(ob):
@@ -529,7 +607,7 @@ sys.exit(1 if bad else 0)
 
 
 register(Unit(P, "S3/_try_acquire", h_try_acquire, functions=[f"{LP}:S3LockProvider._try_acquire"], replay=_replay_s3lock))
-register(Unit(P, "S3/_try_takeover_expired", h_takeover, functions=[f"{LP}:S3LockProvider._try_takeover_expired"], replay=_replay_s3lock))
-register(Unit(P, "S3/_renew_once", h_renew, functions=[f"{LP}:S3LockProvider._renew_once"], replay=_replay_s3lock))
+register(Unit(P, "S3/_try_takeover_expired", h_takeover, functions=[f"{LP}:S3LockProvider._try_takeover_expired"], replay=_replay_takeover_renewal))
+register(Unit(P, "S3/_renew_once", h_renew, functions=[f"{LP}:S3LockProvider._renew_once"], replay=_replay_takeover_renewal))
 register(Unit(P, "S3/is_held", h_is_held_s3, functions=[f"{LP}:S3LockProviderBase.is_held"], replay=_replay_s3lock))
 register(Unit(P, "S3/release", h_release_s3, functions=[f"{LP}:S3LockProviderBase.release"], replay=_replay_s3lock))
